@@ -285,14 +285,14 @@ PROPERTIES = {
     "C04": E_CODECS(
         harnesses=[dict(func=f, reach=[r], quick=dict(budget=200), thorough=dict(budget=600)) for f, r in [
                      ("VerifC04Int64", "C04/int64/decided"), ("VerifC04Nullable", "C04/nullable/decided"), ("VerifC04EmptyBehavior", "C04/empty_behavior/decided"),
-                     ("VerifC04Flatten", "C04/flatten/decided"), ("VerifC04FlattenChild", "C04/flatten-child/decided"), ("VerifC04Oneof", "C04/oneof/decided"),
+                     ("VerifC04Flatten", "C04/flatten/decided"), ("VerifC04FlattenChild", "C04/flatten-child/decided"), ("VerifC04FlattenSameName", "C04/flatten-same-name/decided"), ("VerifC04Oneof", "C04/oneof/decided"),
                      ("VerifC04OneofFlat", "C04/oneof-flat/decided"), ("VerifC04Bytes", "C04/bytes/decided"), ("VerifC04Time", "C04/time/decided"), ("VerifC05UnwrapMap", "C04/unwrap-map/decided"), ("VerifC05UnwrapRoot", "C04/unwrap-root/decided")]],
         bounds_text={"quick": "one message type per annotation (int64 NUMBER singular/unsigned/repeated 0..2, nullable optional string+int32, empty_behavior PRESERVE/NULL/OMIT, flatten with prefix, flatten of a child with multi-word/64-bit fields, discriminated oneof nested and flattened with a custom oneof_value, bytes HEX/BASE64URL); all field values symbolic (integers full range, strings <= 2, presence bits, oneof case); obligations: MarshalJSON succeeds, UnmarshalJSON(MarshalJSON(m)) = m up to the documented losses, the canonical form M(m) is accepted"},
         assumptions=E_ASSUMPTIONS + CODEC_ASSUMPTIONS + ["go-client emits the same codec text as go-http for these features (decided by C14), so the client side is not re-run here"]),
     "C05": E_CODECS(
         harnesses=[dict(func=f, reach=[r], quick=dict(budget=200), thorough=dict(budget=600)) for f, r in [
                      ("VerifC04Int64", "C04/int64/decided"), ("VerifC04Nullable", "C04/nullable/decided"), ("VerifC04EmptyBehavior", "C04/empty_behavior/decided"),
-                     ("VerifC04Flatten", "C04/flatten/decided"), ("VerifC04FlattenChild", "C04/flatten-child/decided"), ("VerifC04Oneof", "C04/oneof/decided"),
+                     ("VerifC04Flatten", "C04/flatten/decided"), ("VerifC04FlattenChild", "C04/flatten-child/decided"), ("VerifC04FlattenSameName", "C04/flatten-same-name/decided"), ("VerifC04Oneof", "C04/oneof/decided"),
                      ("VerifC04OneofFlat", "C04/oneof-flat/decided"), ("VerifC04Bytes", "C04/bytes/decided"), ("VerifC04Time", "C04/time/decided"), ("VerifC05UnwrapMap", "C04/unwrap-map/decided"), ("VerifC05UnwrapRoot", "C04/unwrap-root/decided"), ("VerifC05FlattenAnnotatedChild", "C05/flatten-annotated/decided")]] + [dict(func="VerifC05Nested", reach=["C05/nested/decided", "C05/nested/kf"], quick=dict(budget=200), thorough=dict(budget=600)),
                                                                                                    dict(func="VerifC05ResponsePath", reach=["C05/response-path/decided"], quick=dict(budget=100), thorough=dict(budget=300)),
                                                                                                    dict(func="VerifC05EnumCodec", reach=["C05/enum-codec/decided"], quick=dict(budget=60), thorough=dict(budget=120)),
